@@ -269,6 +269,15 @@ def _run_hist(case, shift, extras=None):
                 except Exception as e:
                     r3 = canon_err(e)
                 extras.setdefault("ref", {})[str(i)] = r3
+            # Box-Cox: the fitted lambda (only used to bound the ROUNDING error of the round trip)
+            if _eff_cfg(cfg)[0] == "bc" and op["op"] in ("fit", "ft") and not tok.startswith(("E:", "?")):
+                try:
+                    obj = t
+                    while hasattr(obj, "transformer_") and obj.transformer_ is not None:
+                        obj = obj.transformer_
+                    extras.setdefault("lam", {})[str(i)] = float(obj.lambda_)
+                except Exception:
+                    pass
     return toks
 
 
@@ -370,6 +379,8 @@ class _Shadow:
         """values of the library function on `vals` (list of float) or None"""
         if self.k == "pass":
             return None if self.cfg[1] else self.inner.aux(vals, inverse)
+        if len(vals) == 0 or (self.k == "ad" and inverse and not _sk_has_inverse(self.cfg[1])):
+            return None          # the code never reaches the library function here
         x = np.array(vals, dtype="float64")
         try:
             with warnings.catch_warnings():
@@ -388,7 +399,7 @@ class _Shadow:
                         r = self.sk.inverse_transform(x.reshape(-1, 1)) if inverse else self.sk.transform(x.reshape(-1, 1))
                         return [float(v) for v in np.asarray(r).ravel()]
         except Exception:
-            return None
+            return "RAISED"
         return None
 
 
@@ -443,6 +454,10 @@ def _col_kind(cfg):
     return cfg[0] if cfg[0] in ("bc", "log", "ad") else None
 
 
+class _LibraryRaised(Exception):
+    pass
+
+
 def to_line(case):
     cfg = case["cfg"]
     if not _modelled(cfg):
@@ -452,37 +467,56 @@ def to_line(case):
     sh = _Shadow(cfg)
     col = _col_kind(cfg)
     toks = []
-    fwd = []          # per op: the shadow's own forward/inverse values (input of a later `inv` by ref)
-    for op in case["ops"]:
-        inp = op["z"]
-        k = op["op"]
-        if det and k in ("upd", "fit", "ft") and _is_series(inp) and len(set(inp["l"])) != len(inp["l"]):
-            return None      # duplicate labels in a batch fed to the embedded forecaster: combine_first is not modelled there
-        vals_in = None
-        if k == "inv" and op.get("ref") is not None and op["ref"] < len(fwd) and fwd[op["ref"]] is not None:
-            vals_in = fwd[op["ref"]]
-        elif _is_series(inp):
-            vals_in = [np.nan if v is None else float(v) for v in inp["v"]]
-        out_vals = None
-        if k in ("fit", "ft"):
-            seas, iss, fe = sh.fit(inp, itype)
-            seas_s = "none" if seas in (None, "none") else _rats(seas)
-        if k in ("tr", "inv", "ft") and col is not None and vals_in is not None:
-            out_vals = sh.aux(vals_in, k == "inv")
-        aux_s = "none" if out_vals is None else _rats(out_vals)
-        if k == "fit":
-            toks.append("fit;%s;%s;%s;%s" % (_inp_str(inp), seas_s, iss, fe))
-        elif k == "upd":
-            toks.append("upd;%s;%s" % (_inp_str(inp), "D" if op.get("up") is None else ("T" if op["up"] else "F")))
-        elif k == "tr":
-            toks.append("tr;%s;%s" % (_inp_str(inp), aux_s))
-        elif k == "inv":
-            toks.append("inv;%s;%s;%s" % (_inp_str(inp), "-" if op.get("ref") is None else str(op["ref"]), aux_s))
-        elif k == "ft":
-            toks.append("ft;%s;%s;%s;%s;%s" % (_inp_str(inp), seas_s, iss, fe, aux_s))
-        # what a later `inv` by reference will receive (only meaningful for the column-wise kinds;
-        # for the others the model computes the values itself)
-        fwd.append(out_vals if (k in ("tr", "ft", "inv") and col is not None) else None)
+    fwd = []          # per op: the shadow's own result values (what a later `inv` by reference may receive)
+
+    def table(cands, inverse):
+        """`key=value|key=value`: the library function on every input this call may receive"""
+        parts, first = [], None
+        for vals in cands:
+            out = sh.aux(vals, inverse)
+            if out == "RAISED":
+                raise _LibraryRaised()
+            if out is None:
+                continue
+            if first is None:
+                first = out
+            part = "%s=%s" % (_rats(vals), _rats(out))
+            if part not in parts:
+                parts.append(part)
+        return ("|".join(parts) if parts else "none"), first
+
+    try:
+        for op in case["ops"]:
+            inp = op["z"]
+            k = op["op"]
+            if det and k in ("upd", "fit", "ft") and _is_series(inp) and len(set(inp["l"])) != len(inp["l"]):
+                return None      # duplicate labels in a batch fed to the embedded forecaster: combine_first is not modelled there
+            cands = []
+            if _is_series(inp):
+                cands.append([np.nan if v is None else float(v) for v in inp["v"]])
+            if k == "inv" and op.get("ref") is not None and op["ref"] < len(fwd) and fwd[op["ref"]] is not None:
+                cands.insert(0, fwd[op["ref"]])
+            if k in ("fit", "ft"):
+                seas, iss, fe = sh.fit(inp, itype)
+                seas_s = "none" if seas in (None, "none") else _rats(seas)
+            aux_s, first = "none", None
+            if k in ("tr", "inv", "ft") and col is not None and cands:
+                aux_s, first = table(cands, k == "inv")
+            if k == "fit":
+                toks.append("fit;%s;%s;%s;%s" % (_inp_str(inp), seas_s, iss, fe))
+            elif k == "upd":
+                toks.append("upd;%s;%s" % (_inp_str(inp), "D" if op.get("up") is None else ("T" if op["up"] else "F")))
+            elif k == "tr":
+                toks.append("tr;%s;%s" % (_inp_str(inp), aux_s))
+            elif k == "inv":
+                toks.append("inv;%s;%s;%s" % (_inp_str(inp), "-" if op.get("ref") is None else str(op["ref"]), aux_s))
+            elif k == "ft":
+                toks.append("ft;%s;%s;%s;%s;%s" % (_inp_str(inp), seas_s, iss, fe, aux_s))
+            # the value a later `inv` by reference receives if this call returns a series: the library
+            # function on this call's own (first candidate) input
+            fwd.append(first if (k in ("tr", "ft", "inv") and col is not None) else None)
+    except _LibraryRaised:
+        return None              # the library function itself raised on this input (e.g. sklearn rejects NaN): not modelled
     return "C13 hist %s %d %s" % (_cfg_str(cfg), int(case.get("shift", 0)), " ".join(toks))
 
 
@@ -601,6 +635,12 @@ def oracle(case, out):
         if any(o["op"] in ("fit", "upd", "ft") for o in ops[k + 1:i]):
             continue
         zl, zv = ins[k]
+        lam = None
+        if _eff_cfg(cfg)[0] == "bc":
+            for j in range(k, -1, -1):
+                if str(j) in extras.get("lam", {}):
+                    lam = extras["lam"][str(j)]
+                    break
         if P[i][1] != zl:
             add(site + ".inverse_transform:roundtrip-index", "ops %d,%d: z index %r, inverse(transform(z)) index %r" % (k, i, zl, P[i][1]))
             continue
@@ -608,7 +648,16 @@ def oracle(case, out):
             if tv is None or x is None:
                 continue
             b = _num(bv)
-            if b is None or abs(b - x) > RT_TOL * max(1.0, abs(x)):
+            tol = RT_TOL
+            if lam is not None and lam != 0.0:
+                # rounding-error bound of evaluating (lam*y + 1)**(1/lam) in double precision: the relative
+                # error eps*(1+|lam*y|)/|lam*y+1| of the base is amplified by the exponent 1/|lam|
+                y = _num(tv)
+                base = lam * y + 1.0
+                if base == 0.0:
+                    continue
+                tol += 64 * 2.0 ** -52 * (1.0 + abs(lam * y)) / (abs(lam) * abs(base))
+            if b is None or abs(b - x) > tol * max(1.0, abs(x)):
                 add(site + ".inverse_transform:roundtrip-values",
                     "ops %d,%d label %d: z=%r transform=%s inverse(transform)=%s" % (k, i, zl[j], x, tv, bv))
                 break
